@@ -23,8 +23,11 @@ import (
 func DocJSON(i int, variant int) string {
 	base := fmt.Sprintf(`{"id":%d,"name":"t%dzq","n":%d,"nums":[%d,2,3,%d],"s":["b%d","a%d","c%d"],`+
 		`"one":{"k":"v%d"},"items":[{"p":"x%dz1","q":%d},{"p":"y%dz2","q":%d}],`+
-		`"nest":{"c":"z%dXq"},"txt":" a  b%d ","dups":["a","a","b%d","a","c","b%d"]`,
-		i, i, i+1, i, i+10, i, i, i, i, i, i, i, i+1, i, i, i, i)
+		`"nest":{"c":"z%dXq"},"txt":" a  b%d ","dups":["a","a","b%d","a","c","b%d"],`+
+		// arrays inside the members of an array: one path step then yields
+		// several of the caller's arrays
+		`"groups":[{"g":"a","rows":[%d,2,3],"tags":["t%d"]},{"g":"b","rows":[4],"tags":[]},{"g":"a","rows":[5,6],"tags":["u","v","w"]}]`,
+		i, i, i+1, i, i+10, i, i, i, i, i, i, i, i+1, i, i, i, i, i, i)
 	// the same paths hold values of different kinds in different documents
 	switch i % 3 {
 	case 0:
@@ -258,7 +261,11 @@ func (g *Gen) ArrN(d int) string {
 		// `page` is a sub-slice of `nums` in some documents (shared backing array)
 		`page`, `$append(page, 99)`, `$append(page, nums)`, `$append(page, [7, 8, 9])`,
 		// `windows` holds two sub-slices of `nums` (array of arrays over one backing array)
-		`windows.*`, `$.windows.*`, `[windows].*`, `windows[0]`, `$append(windows[0], windows[1])`, `$reverse(windows).*`)
+		`windows.*`, `$.windows.*`, `[windows].*`, `windows[0]`, `$append(windows[0], windows[1])`, `$reverse(windows).*`,
+		// one step yielding several of the document's arrays
+		`groups.rows`, `$.groups.rows`, `groups[g = "a"].rows`, `groups.rows[0]`, `groups.rows^(>$)`, `groups.(rows)`,
+		`groups.rows[$ > 1]`, `$append(groups.rows, 1)`, `$reverse(groups).rows`, `groups^(>g).rows`, `groups.$count(rows)`,
+		`$map(groups, function($x){$x.rows}).*`, `groups.tags.$length()`)
 	nodes := []func(d int) string{
 		func(d int) string { return `[` + g.Num(d) + `, ` + g.Num(d) + `]` },
 		func(d int) string { return `$map(` + g.ArrN(d) + `, function($v){$v * 2})` },
@@ -290,7 +297,8 @@ func (g *Gen) ArrS(d int) string {
 	leaves := lit(`s`, `items.p`, `s^(<$)`, `items^(>q).p`, `items^(p).p`, `s.$uppercase()`,
 		`items.p.$substringAfter("z")`, `items.(p.$uppercase())`, `items[q > $$.id].p.$lowercase()`,
 		`$keys(one)`, `one.$keys()`, `one.$each(function($v,$k){$k & $v})`, `name.$split("z")`,
-		`items.p.$pad($$.n.$string().$length() + 8)`, `name.$match(/[a-z]/).match`)
+		`items.p.$pad($$.n.$string().$length() + 8)`, `name.$match(/[a-z]/).match`,
+		`groups.tags`, `groups.g`, `groups[g = "a"].tags`, `groups.tags^(<$)`, `$append(groups.tags, "z")`, `groups.(tags)`)
 	nodes := []func(d int) string{
 		func(d int) string { return `$split(` + g.Str(d) + `, ` + g.pick(`"z"`, `/z/`, `" "`) + `)` },
 		func(d int) string { return `$map(` + g.ArrS(d) + `, $uppercase)` },
@@ -383,6 +391,10 @@ func (g *Gen) Transform(d int) string {
 		`e ~> |$|{"x": name}|`,
 		`$ ~> |metas[0]|{"m": $$.n}, "a"|`,
 		`$ ~> |one|{"x": 1}| ~> |one|{"y": x + 1}|`,
+		`$ ~> |groups|{"n": $count(rows)}|`,
+		`$ ~> |groups|{"rows": $append(rows, 0)}, "tags"|`,
+		`groups ~> |$|{"first": rows[0]}, ["tags"]|`,
+		`$ ~> |groups[g = "a"]|{"rows": $reverse(rows)}|`,
 	)
 	nodes := []func(d int) string{
 		func(d int) string {
@@ -398,6 +410,17 @@ func (g *Gen) Transform(d int) string {
 // cloned argument ($$-relative or variable-relative). They must not write
 // into the caller's document either (C07).
 func (g *Gen) TransformOutside() string {
+	if g.R.Chance(1, 6) {
+		// the pattern selects the root of the copy and THEN an outside node;
+		// the update of the first selected item stores that outside node in
+		// the copy (only the root has "id"), so that when the second item
+		// is reached the copy refers to it - it still is not part of the copy
+		sel := g.pick(`$$.one`, `$$.nest`, `$$.items[0]`, `$v`, `$$.groups[1]`)
+		pat := g.pick(`[$, `+sel+`]`, `$append([$], [`+sel+`])`, `($; [$, `+sel+`])`)
+		upd := g.pick(`{"ref": $exists(id) ? `+sel+`, "mark": 1}`, `{"ref": $exists(id) ? `+sel+`}, "k"`,
+			`{"refs": $exists(id) ? [`+sel+`], "mark": 1}`, `{"ref": $exists(id) ? {"in": `+sel+`}, "mark": 1}, ["c", "p"]`)
+		return `($v := ` + g.pick("one", "nest", "items[1]") + `; $ ~> |` + pat + `|` + upd + `|)`
+	}
 	if g.R.Chance(2, 3) {
 		// selector of a node outside the copy, reached in various syntactic ways
 		sel := g.pick(`$$.one`, `$$.nest`, `$$.items`, `$$.items[0]`, `$v`, `$$.e`, `$$.metas`)
